@@ -138,6 +138,9 @@ C02_CounterNeverDecreases == Ctr => CounterNeverDecreases(out, reps) /\ CounterN
 BoundedOutput == /\ Len(out) <= Cardinality(SampleSet(reps))
                  /\ Len(log) <= Cardinality(SampleSet(reps)) + MaxSeeks + 1
 OnlyDoneIsFinal == pc # "done" => ENABLED Next
+(* liveness (checked under weak fairness of the readers, no state constraint): both readers finish *)
+FairSpec == Spec /\ WF_vars(Next)
+Terminates == <>(pc = "done")
 
 (* ---------------- leg B: the inputs handed to the harness ---------------- *)
 CasesFile == IF "VERIF_CASES" \in DOMAIN IOEnv THEN IOEnv.VERIF_CASES ELSE "cases.ndjson"
